@@ -80,7 +80,11 @@ class sampler:
             trial.calc_energy(prop_data["walkers"], ham_data, wave_data)
         )
         energy_samples = jnp.where(
-            jnp.abs(energy_samples - prop_data["e_estimate"]) > jnp.sqrt(2.0 / prop.dt),
+            jnp.isnan(energy_samples)
+            | (
+                jnp.abs(energy_samples - prop_data["e_estimate"])
+                > jnp.sqrt(2.0 / prop.dt)
+            ),
             prop_data["e_estimate"],
             energy_samples,
         )
